@@ -305,3 +305,37 @@ Theorem run_aop_fullD w o a a' :
 Proof.
   intros Ha. apply run_aop_fullDR. unfold a_allowedDR. by rewrite Ha.
 Qed.
+
+(** ** Example with dynamic reordering ENABLED: [BDD({v0: 0, v1: 1})],
+    [x = bdd.var('v0')], [y = bdd.var('v1')] ([ffwS]);
+    [bdd.configure(reordering=True)], [bdd._bdd.max_nodes = 4] ([ffwD0]);
+    and with the forced trigger, so that the first reordering request of the
+    next call fires ([ffwD]).  The hypotheses of [run_aop_fullD] hold in both
+    worlds for the call [y | x] (which needs a new node). *)
+Definition ffwS : aworld := arun aworld_empty 0 (ANew [(0, 0); (1, 1)] :: [AVar 0; AVar 1]).
+Definition ffwD0 : aworld :=
+  arun ffwS 0 [AConfigure (Some true); ASetMaxNodes (Some 4%positive)].
+Definition ffwD : aworld :=
+  arun ffwS 0 [AConfigure (Some true); ASetMaxNodes (Some 4%positive); ASetTrig (Some 1)].
+
+Lemma ffwS_AInvDT : AInvDT (aworld_get ffwS 0).
+Proof.
+  apply AInvDT_of_AInvT; [|by vm_compute].
+  apply (arun_from_new2 [(0, 0); (1, 1)] [AVar 0; AVar 1] 0); [by vm_compute|].
+  cbn [ahist_ok2]. repeat (split; [by vm_compute|]). exact I.
+Qed.
+
+Example full_dynamic_hypotheses :
+  (AInvDT (aworld_get ffwD0 0) ∧ AInvDT (aworld_get ffwD 0)) ∧
+  a_allowedD (AApply "or" 1 (Some 0) None) = true ∧
+  (∃ a', run_aop aworld_empty (AApply "or" 1 (Some 0) None) (aworld_get ffwD0 0)
+         = (Err ERuntime, a')) ∧
+  (∃ a', run_aop aworld_empty (AApply "or" 1 (Some 0) None) (aworld_get ffwD 0)
+         = (Err ERuntime, a')).
+Proof.
+  split; [split|split; [done|split; eexists; by vm_compute]].
+  - unfold ffwD0. apply (arun_AInvD _ ffwS 0 ffwS_AInvDT).
+    repeat (apply Forall_cons; split; [reflexivity|]). by apply Forall_nil.
+  - unfold ffwD. apply (arun_AInvD _ ffwS 0 ffwS_AInvDT).
+    repeat (apply Forall_cons; split; [reflexivity|]). by apply Forall_nil.
+Qed.
